@@ -222,7 +222,7 @@ class SimTransport(net.Conn, asyncio.Transport):
 
         def cb():
             if kind == "clockjump":
-                self.world.clock.advance_ns(int(item[1] * 1e9))
+                self.world.clock.step_ns(int(item[1] * 1e9))
                 self.world.log("clock.jump", self.cid, item[1])
                 return
             if self._lost:
